@@ -99,6 +99,15 @@ if job["mode"] == "direct":
         emit(("cand", name, step(name, job["verbose"]), iomods()))
 else:
     for name in job["cands"]:
+        if name in sys.modules:
+            # already fully imported in this state: the import statement is a sys.modules lookup that
+            # runs no module code and cannot change the state, so no fork is needed to protect it
+            before = iomods()
+            rec = ("cand", name, step(name, job["verbose"]), iomods())
+            if rec[3] != before:
+                rec = ("cand", name, ("fail", "StateChanged", "import of a loaded module changed sys.modules", "", None), rec[3])
+            emit(rec)
+            continue
         pid = os.fork()
         if pid == 0:
             try:
@@ -188,8 +197,10 @@ class Explorer:
     def transitions(self, paths_and_cands, mode, bare=False):
         """Run jobs; yields (path, cand, result, iomods_after)."""
         jobs = []
+        paths_and_cands = list(paths_and_cands)
+        per_state = max(1, -(-2 * core.NPROC // max(1, len(paths_and_cands))))
         for path, cands in paths_and_cands:
-            size = 1 if mode == "direct" else max(1, (len(cands) + 3) // 4)
+            size = 1 if mode == "direct" else max(1, -(-len(cands) // per_state))
             for ch in chunks(cands, size):
                 jobs.append(dict(path=list(path), cands=ch, mode=mode, verbose=False, bare=bare))
         results = list(self.pool.map(run_job, jobs))
